@@ -354,6 +354,7 @@ def streams_for(prop, seed, tier, boost=1):
         add('huff-large', genmod.huff_large_stream(full=T))
         add('huff-copies', genmod.huff_copy_stream(G('hc')))
         add('henc-shared-buffer', genmod.henc_shared_stream(G('hsb'), n=60 * k))
+        add('huff-all-pairs', genmod.huff_pairs_stream())
         add('copies', genmod.copy_stream(G('cp')))
     elif prop == 'C13':
         add('hdec', G('hdec').hdec_stream(n_random=400 * k))
@@ -450,6 +451,8 @@ def streams_for(prop, seed, tier, boost=1):
         add('never-indexed-utf8', genmod.never_indexed_utf8_stream())
         add('limits-interleaved', genmod.limit_interleaved_stream())
         add('failed-then-fresh', genmod.failed_then_fresh_stream())
+        add('format-chars', genmod.format_chars_stream())
+        add('format-chars-debuglog', genmod.with_debug_log(genmod.format_chars_stream(start_id=51000)))
         add('hdec-in-block', ['dnew 1'] + ['ddec 1 1 ' + genmod.hx(bytes([0x00, 0x80 | (len(o.split()[1]) // 2)]) + bytes.fromhex(o.split()[1]) + b'\x00')
                                           for o in genmod.huff_transition_catalogue() if o.split()[1] != '-' and len(o.split()[1]) // 2 < 127])
         if T:
